@@ -16,8 +16,11 @@ Includes are put back by `Refine/TermIncl.lean`: whatever the include graph — 
 limit cuts every chain, and a fuel computed from the tree, the registry and the limit suffices
 (`render_with_includes_never_out_of_fuel`).
 
-Outside the theorems, on purpose: a counter loop runs as long as its bounds say (`C03N.trips`; `i != n` stepping away
-from `n` runs 2⁶⁴ times before the counter wraps, which the property does not forbid and the watchdog sees).
+Counter loops are inside as far as their running time is in the TEMPLATE: a loop with literal bounds that steps towards
+its limit (`cloopLit`: `<` / `<=` / `!=` from below with `++`, `>` / `>=` / `!=` from above with `--`, `==`) needs its trip
+count plus one (`cloopNeed`, from `dist`), nested to any depth, with any body. Outside, on purpose: a counter loop whose
+bounds are variables runs as long as the DATA says (`C03N.trips`), and `i != n` stepping away from `n` runs 2⁶⁴ times
+before the counter wraps — which the property does not forbid and the watchdog sees.
 -/
 
 namespace DyntplV.C13
@@ -111,7 +114,8 @@ theorem need_member (l : List Node) (n : Node) (h : n ∈ l) : needNode n < need
 
 open DyntplV.TermIncl
 
-/-- **`Write(w, key, ctx)` never runs out of fuel when no template of the registry contains a counter loop** — whatever
+/-- **`Write(w, key, ctx)` never runs out of fuel when every counter loop of the registry's templates has literal bounds
+    and steps towards its limit (`regLF`; templates without counter loops are the special case)** — whatever
     the include graph (self-includes and cycles are cut by the include limit), the data, the writer and the depth the
     context starts at. -/
 theorem render_with_includes_never_out_of_fuel (reg : Registry) (key : Bytes) (nodes : List Node) (s : St) (f : Nat)
@@ -160,6 +164,29 @@ example : regNeed regSelf = 5 := by decide
 example : treeNeedIncl (regNeed regSelf) [.raw (lit "["), .incl [lit "self"], .raw (lit "]")] = 645 := by decide
 example : (writeKey regSelf 645 (lit "host") { c := {}, w := {} }).err ≠ some .outOfFuel :=
   (render_with_includes_never_out_of_fuel regSelf (lit "host") _ { c := {}, w := {} } 645 (by decide) rfl (by decide) (by decide)).1
+
+/-- A counter loop, for ANY body and else-branch that do not run out themselves: literal bounds that let it step towards
+    its limit and a budget above its trip count — the loop node returns without `outOfFuel`. -/
+theorem counter_loop_terminates {k : Nat} (run : St → Res) (re : Option (St → Res)) (f : Nat) (ls : CLoopSpec) (s : St)
+    (hrun : ∀ s, SK k s → RK k (run s)) (hre : ElseK k re) (hs : SK k s) (hl : cloopLit ls = true) (hf : cloopNeed ls ≤ f) :
+    RK k (loopNode (cloopWith run re f ls) s) :=
+  cloopNode_RK run re f ls s hrun hre hs (cloopLit_bound ls hl f hf)
+
+/-! Non-vacuity: nested counter loops with literal bounds, one counting up, one counting down, and an include of them. -/
+def regLoops : Registry :=
+  [(lit "rows", [.cloop ⟨lit "i", lit "0", true, .inc, .lt, lit "3", true, []⟩
+      [.raw (lit "r"), .cloop ⟨lit "j", lit "5", true, .dec, .gt, lit "2", true, []⟩ [.raw (lit "c")]]]),
+   (lit "page", [.raw (lit "<"), .incl [lit "rows"], .raw (lit ">")])]
+
+example : regLF regLoops = true := by decide
+example : regNeed regLoops = 16 := by decide
+example : (writeKey regLoops 40 (lit "page") { c := {}, w := {} }).st.w.out = lit "<rcccrcccrccc>" := by decide
+example : (writeKey regLoops 5000 (lit "page") { c := {}, w := {} }).err ≠ some .outOfFuel :=
+  (render_with_includes_never_out_of_fuel regLoops (lit "page") _ { c := {}, w := {} } 5000 (by decide) rfl (by decide) (by decide)).1
+/-- A loop that steps away from its limit is outside. -/
+example : cloopLit ⟨lit "i", lit "0", true, .dec, .lt, lit "3", true, []⟩ = false := by decide
+/-- … and so is one whose bound is a variable. -/
+example : cloopLit ⟨lit "i", lit "0", true, .inc, .lt, lit "n", false, []⟩ = false := by decide
 
 /-! Non-vacuity: the three-level nest of C14 (range loops, `break 2`) is in the fragment, its bound is 11, and the
     run with the differential harness's fuel (1200) is, by the theorem, the run with fuel 11. -/
